@@ -227,7 +227,7 @@ func (im *Impl) checkSepList(fd *ast.FuncDecl, roles *printRoles) string {
 		return "unexpected loop variables"
 	}
 	k, v := im.info().Defs[kid], im.info().Defs[vid]
-	ps, err := paths.Enumerate(rs.Body)
+	ps, err := paths.EnumerateLoop(rs.Body)
 	if err != nil {
 		return "undecidable loop body: " + err.Error()
 	}
